@@ -81,6 +81,7 @@ func runC10(c *Ctx) {
 	checkBufferCopiedInLoop(c, p, fns)
 	checkGrowingListRescanned(c, p, fns)
 	checkLineKeyedTables(c, p, fns)
+	checkByteBufferIndex(c, p, fns)
 	// R10.6 no quadratic string accumulation
 	checkStringAccumulation(c, p, fns)
 	// R10.7 lazily built parts of a document exist wherever they are used
@@ -1040,4 +1041,70 @@ func checkLineKeyedTables(c *Ctx, p *core.Prog, fns []*ssa.Function) {
 	}
 	c.R.Check(bad == "", "R10.12", "a table indexed by line numbers is a map, or the index is tested against its length", v2pkg, fmt.Sprintf("%d slice accesses indexed by a line number", n),
 		"a slice is indexed by a line number without a test against its length ("+bad+"): the lines of notice pseudo-matches are not bounded by the line of the last token, so an input whose last word-bearing line is a notice makes Match panic")
+}
+
+// checkByteBufferIndex: R10.13. A byte of a buffer is read by index only below a bound that was tested: an access buf[i] into a
+// []byte with a computed index i (not a constant, not len(buf)-k, which R10.1 decides) stands behind a test `i < ...`. The read
+// window of the tokenizer is full when the input fills it exactly: a look-ahead at the byte behind the current rune without
+// such a test reads one past the end for an input whose last byte is the last byte of the window.
+func checkByteBufferIndex(c *Ctx, p *core.Prog, fns []*ssa.Function) {
+	n, bad := 0, ""
+	for _, fn := range fns {
+		if isTraceFn(fn) {
+			continue
+		}
+		for _, b := range fn.Blocks {
+			for _, in := range b.Instrs {
+				ia, ok := in.(*ssa.IndexAddr)
+				if !ok {
+					continue
+				}
+				sl, isSl := ia.X.Type().Underlying().(*types.Slice)
+				if !isSl {
+					continue
+				}
+				if bt, isB := sl.Elem().Underlying().(*types.Basic); !isB || bt.Kind() != types.Byte {
+					continue
+				}
+				idx := core.Unspill(ia.Index)
+				if _, isK := idx.(*ssa.Const); isK {
+					continue
+				}
+				if bo, isBo := idx.(*ssa.BinOp); isBo && bo.Op == token.SUB && strings.HasPrefix(core.AP(bo.X), "len(") {
+					continue
+				}
+				// the index of a range loop over the same slice is in range by construction
+				if bo, isBo := idx.(*ssa.BinOp); isBo && bo.Op == token.ADD {
+					if ph, isPhi := bo.X.(*ssa.Phi); isPhi {
+						fromMinusOne := false
+						for _, e := range ph.Edges {
+							if k, isK := core.ConstInt(e); isK && k == -1 {
+								fromMinusOne = true
+							}
+						}
+						if fromMinusOne {
+							continue
+						}
+					}
+				}
+				n++
+				guarded := false
+				for _, f := range core.FactsAt(b) {
+					cmp, ok := f.AsCmp()
+					if !ok {
+						continue
+					}
+					x, y := core.Unspill(cmp.X), core.Unspill(cmp.Y)
+					if (x == idx && (cmp.Op == token.LSS || cmp.Op == token.LEQ)) || (y == idx && (cmp.Op == token.GTR || cmp.Op == token.GEQ)) {
+						guarded = true
+					}
+				}
+				if !guarded && bad == "" {
+					bad = core.ShortFn(fn) + ": " + p.Pos(ia.Pos())
+				}
+			}
+		}
+	}
+	c.R.Check(bad == "", "R10.13", "a byte buffer is indexed by a computed position only behind a test of that position", v2pkg, fmt.Sprintf("%d accesses of a []byte at a computed index", n),
+		"a []byte is read at a computed index without a dominating `index < bound` test ("+bad+"): when the position is the end of the buffer - an input that fills the read window exactly - the access is out of range and Match/MatchFrom panic")
 }
